@@ -506,7 +506,12 @@ pub fn mon_ack(scn: &Scenario, r: &Record, out: &mut V) {
     if _scn_for_pn(scn) && !r.dgrams.iter().any(|d| !d.delivered_intact || d.from == 2) {
         for e in &r.events {
             if let Ev::PacketDropped { reason } = &e.ev {
-                if reason == "DecryptionFailed" {
+                // a datagram that the schedule delayed or duplicated may arrive so far behind the newest
+                // packet that the receiver's expansion window no longer contains its number (RFC 9000 A.3
+                // reconstructs relative to the largest number received): that is loss, not a codec fault
+                let sender = other(e.ep);
+                let late = r.dgrams.iter().any(|d| d.from == sender && (d.action.starts_with('L') || d.action.starts_with('U')) && d.delivered_at.iter().any(|t| *t == e.t));
+                if reason == "DecryptionFailed" && !late {
                     v(out, "ack.pn_not_reconstructed", format!("{} dropped a genuine, undamaged packet at {} us: {} (with no key update in progress the only cause is a wrongly expanded packet number)", epn(e.ep), e.t, reason));
                 }
             }
